@@ -170,6 +170,10 @@ fn run(def: &'static PropDef, tier: Tier) -> i32 {
         return 0;
     }
     violations.sort_by_key(|v| v.1.case.to_string().len());
+    println!("  unattributed failure signatures: {} (cases {})", violations.len(), nviol);
+    for (n, f) in violations.iter().take(60) {
+        println!("    {:>7}  {}", n, f.tags.join(" "));
+    }
     let dir = format!("{}/replays/{}", infra::root(), def.id);
     let _ = std::fs::create_dir_all(&dir);
     for (n, f) in violations.iter().take(8) {
